@@ -444,6 +444,9 @@ def run_property(prop, tier, seed):
         for kind in ("types", "functions"):
             for new, canon in sorted(facts.alias_map.get(kind, {}).items()):
                 print("note: %s is analysed as the renamed / moved %s (rules/aliases.py)" % (new, canon))
+    if getattr(facts, "inlined", None):
+        rep.extra["inlined_new_helpers"] = {k: sorted(set(v)) for k, v in sorted(facts.inlined.items())}
+        print("note: functions the reviewed tree did not have were spliced into their callers (rules/inline.py): %s" % ", ".join(sorted({x for v in facts.inlined.values() for x in v})))
     PROPS[prop](facts, rep, tier)
 
     def runner(f2, r2, t2):
